@@ -371,7 +371,11 @@ Section L1D.
     let pend' := fold_left (fun p xy => remove (fst xy) p) xys (pend s) in
     let points := map fst data' in
     let comb := merge_sorted (length pend' + length points) pend' points in
-    let bx := (match comb with x :: _ => x | [] => zero end, last_num comb zero) in
+    (* min(bounds[0], points_combined.min()), max(bounds[1], points_combined.max()):
+       the x-extent never shrinks below the domain (repaired in /repo; before, the
+       data extent alone was taken) *)
+    let bx := (pmin (lo P) (match comb with x :: _ => x | [] => zero end),
+               pmax (hi P) (last_num comb zero)) in
     let ys := map snd data' in
     let y0 := match ys with y :: _ => y | [] => YS zero end in
     let mn := col_fold np_min2 ys in let mx := col_fold np_max2 ys in
